@@ -160,6 +160,7 @@ Proof.
   destruct (negb _); [exact I|].
   rewrite (check_reps_sim _ _ loopMS _ _ Hlk Hr). destruct (check_reps r' loopMS (a_reps a')) as [[b|]| |]; cbn [bind res_rel]; auto; [|exact I].
   destruct b; [|exact I]. cbn. repeat split; auto.
+  unfold ref_seg_dur_ms. rewrite (rep_sim_rduration _ _ Hlk), (rep_sim_len _ _ Hlk), Ht. reflexivity.
 Qed.
 
 Lemma consolidate_all_sim l l' : assets_sim l l' -> res_rel assets_sim (consolidate_all l) (consolidate_all l').
